@@ -41,11 +41,12 @@ def observe(go_run, m, which):
 
 def correspond(ctx, C):
     st = S.SpecStats()
-    rows = S.run(ctx, C, "speccat", 128, 1280) + S.run(ctx, C, "spec", 256, 4000)
+    rows = S.run(ctx, C, "speccat", 196, 1960) + S.run(ctx, C, "spec", 256, 4000)
     known = S.known_for(C, "C09")
     viol, ties, attributed = [], [], {}
     nloc = {"default": 0, "example": 0}
     compared = 0
+    stop_checked = 0
     for r in rows:
         st.add(C, r)
         go, m = r["go"], r["m"]
@@ -77,6 +78,20 @@ def correspond(ctx, C):
                 else:
                     viol.append((r["case"], {"what": "%s: a value its schema rejects is not reported, or an accepted one is" % which,
                                              "not_reported": sorted(missed)[:6], "reported_but_accepted": sorted(extra)[:6]}))
+        # the default mode (stop at the first failing stage): once a run has reached the value stages - it reports a default
+        # error, or no error at all - its examples are judged as well, exactly as they are with continue-on-errors
+        stop = S.runs_of(go, False, "same")
+        if stop and "errors" in stop[0] and "warningsC" in stop[0]:
+            s_errs = stop[0]["errors"]
+            reached = (not s_errs) or any((S.classify9(x) or "").startswith("default") for x in s_errs)
+            if reached:
+                stop_checked += 1
+                g_s, _, _ = observe(stop[0], m, "examples")
+                g_c, _, _ = observe(cont[0], m, "examples")
+                if g_s != g_c:
+                    viol.append((r["case"], {"what": "examples: when stopping at the first failing stage the run reaches the value stages (it reports %s), "
+                                                     "but does not judge the examples as it does with continue-on-errors" % ("a default error" if s_errs else "no error"),
+                                             "only_with_continue": sorted(g_c - g_s)[:6], "only_when_stopping": sorted(g_s - g_c)[:6]}))
     npf, pfbad = S.pathfuncs_tie(ctx, C, ("visited",))
     ties = ties + pfbad
     out = viol[:3]
@@ -95,6 +110,7 @@ def correspond(ctx, C):
                     break
     cov = st.coverage(RULE)
     cov["documents_compared"] = compared
+    cov["stop_mode_runs_reaching_value_stages"] = stop_checked
     cov["locations_enumerated"] = nloc
     cov["tie_mismatches"] = len(ties)
     cov["string_function_cases"] = npf
